@@ -507,6 +507,7 @@ def viewLen (t : Ty) (n : Node) : Option Nat :=
 
 inductive POp where
   | read | elem (i : Nat) | len | bytes | root | mut (op : HOp) | slice (a b : Nat) | nav (g : Nat)
+  | sub (i : Nat) (op : HOp)   -- a mutation through the child view at key i (propagates into this view)
 
 def toPOp : Sexp → Option POp
   | .list [.atom "read"] => some .read
@@ -514,6 +515,7 @@ def toPOp : Sexp → Option POp
   | .list [.atom "len"] => some .len
   | .list [.atom "iter"] => some .read
   | .list [.atom "nav", g] => (atomNat g).map .nav
+  | .list [.atom "sub", i, op] => do pure (.sub (← atomNat i) (← toHOp op))
   | .list [.atom "slice", a, b] => do pure (.slice (← atomNat a) (← atomNat b))
   | .list [.atom "bytes"] => some .bytes
   | .list [.atom "root"] => some .root
@@ -533,6 +535,16 @@ def runPOps (t : Ty) (n0 : Node) (ops : List POp) (key : String) : List String :
         | .elem i => (n, okStr ((readElem t n i).map valStr))
         | .len => (n, okStr ((viewLen t n).map toString))
         | .nav g => (n, okStr ((getter n g).map fun m => hexOf (m.root H)))
+        | .sub i ho =>
+          let r : Option Node := do
+            let (ct, cn) ← Impl.childOf H t n i
+            if ct.isBasic then none
+            let (ops, _) ← expandHOp ct .none ho
+            let cn' ← ops.foldlM (fun acc o => Impl.apply H ct acc o) cn
+            Impl.setChildNode H t n i cn'
+          match r with
+          | some m => (m, "ok:" ++ hexOf (m.root H))
+          | none => (n, "err")
         | .slice a b =>
           -- an in-range slice (both bounds reduced modulo the current length) = the element reads in order
           (n, okStr ((viewLen t n).bind fun ln =>
